@@ -102,4 +102,43 @@ def loadFull (est : LoadState → Nat → Outcome (Int × Nat)) (sysPos : List P
         if nOov = 0 then .err .noOovPlugin
         else mergeAllFull est ⟨⟨g, set⟩, connPlugs.flatten, [sysCosts]⟩ users
 
+/-! ### either version of `merge_user_dictionary` (`MergeVariant`, finding P2) inside the full load
+
+The repaired tree tests the size of the merged POS list FIRST — before `update_cost` analyses anything, before `append`
+and `merge` change anything.  `loadFull` above stays the pinned load verbatim; `loadFullV .unbounded` is `loadFull`
+(`Layers.loadFullV_unbounded`). -/
+
+def mergeUserFullV (v : MergeVariant) (est : LoadState → Nat → Outcome (Int × Nat)) (st : LoadState) (u : UserDic) :
+    Outcome LoadState :=
+  match v with
+  | .unbounded => mergeUserFull est st u
+  | .limit =>
+    if st.dict.posList.length + u.own.length > U16_IDS then .err .invalidPos
+    else mergeUserFull est st u
+
+def mergeAllFullV (v : MergeVariant) (est : LoadState → Nat → Outcome (Int × Nat)) :
+    LoadState → List UserDic → Outcome LoadState
+  | st, [] => .ok st
+  | st, u :: rest =>
+    match mergeUserFullV v est st u with
+    | .ok st' => mergeAllFullV v est st' rest
+    | .err e => .err e
+    | .panic w => .panic w
+
+/-- `from_cfg_storage` of either tree -/
+def loadFullV (v : MergeVariant) (est : LoadState → Nat → Outcome (Int × Nat)) (sysPos : List Pos) (sysLex : Lexicon)
+    (sysCosts : List Int) (numLeft numRight : Nat) (connPlugs : List (List (Nat × Nat))) (plugs : List (Bool × Pos))
+    (nOov : Nat) (users : List UserDic) : Outcome LoadState :=
+  match LexSet.new sysLex sysPos.length with
+  | .err e => .err e
+  | .panic w => .panic w
+  | .ok set =>
+    if !(connPlugs.all (pairsValid numLeft numRight)) then .err .invalidData
+    else match loadPlugins sysPos plugs with
+      | .err e => .err e
+      | .panic w => .panic w
+      | .ok (g, _) =>
+        if nOov = 0 then .err .noOovPlugin
+        else mergeAllFullV v est ⟨⟨g, set⟩, connPlugs.flatten, [sysCosts]⟩ users
+
 end Layers
